@@ -6,4 +6,9 @@ PROPERTY = "C08"
 
 
 def cases(tier):
-    return tree_cases(PROPERTY, tier, hibernation_values=(False, True)) + run_cases(PROPERTY, tier)
+    from . import c10
+
+    # filter / mechanism level with symbolic fitness (ties across parents included): the seeds returned for a parent are
+    # individuals offered by that parent, and never more than the free slots
+    shared = [c for c in c10.cases(tier) if c["name"].startswith(("levellimit.", "chain.", "demelimit.", "generators."))]
+    return tree_cases(PROPERTY, tier, hibernation_values=(False, True)) + run_cases(PROPERTY, tier) + shared
